@@ -232,6 +232,9 @@ FINDING_WITNESS = {
       "definitions": {"Inner": {"type": "object", "properties": {"a": {"type": "integer", "default": 5}}}}}}]},
   "C06-default-ignored": {"settings": SETTINGS, "calls": [{"root": {"title": "Root", "type": "object", "properties": {"t": {"$ref": "#/definitions/T"}},
       "definitions": {"T": {"type": "string", "default": None}}}}]},
+  "C06-ref-int-bounds": {"settings": SETTINGS, "calls": [{"root": {"title": "Root", "type": "object", "properties": {
+      "p": {"allOf": [{"$ref": "#/definitions/I"}], "default": 5}, "q": {"type": "array", "items": {"$ref": "#/definitions/I"}, "default": [12, 99]}},
+      "definitions": {"I": {"type": "integer", "minimum": 10, "maximum": 20}}}}]},
   "C06-native-default": {"settings": SETTINGS, "calls": [{"root": {"title": "Root", "type": "object", "properties": {
       "id": {"type": "string", "format": "uuid", "default": "not-a-uuid"}}}}]},
 }
@@ -618,6 +621,48 @@ def _in_default_code(code, line):
         if not l.startswith(" ") and s: cur = s
     return bool(cur) and ("mod defaults" in cur or "::default::Default for" in cur or "Default for" in cur)
 
+def _int_bound_through_ref(f):
+    """the invalid default holds an integer that is inside the RUST type's range but outside the schema's minimum / maximum,
+    and reaches the integer schema through a `$ref` or from inside an array / object default (not written on the integer
+    schema itself, where convert_integer checks it): the IR keeps only the Rust type, so validate_value cannot see the bounds"""
+    try:
+        doc = f["input"]["calls"][0]["root"]
+        if "pointer" in f:
+            ptr = f["pointer"]; dv = f["default"]
+            body = gen.ptr_get(doc, ptr[: -len("/default")] if ptr.endswith("/default") else ptr)
+            sites = [(body, dv)]
+        else:       # o4: the property is known by name
+            sites = [(b, d) for q, b, d in gen.find_defaults(doc) if q.endswith("/properties/%s" % f.get("prop")) or q.endswith("/properties/%s/default" % f.get("prop"))]
+    except Exception: return False
+    return any(_int_bound_site(doc, body, dv) for body, dv in sites)
+
+def _int_bound_site(doc, body, dv):
+    found = []
+    def walk(schema, v, via, fuel=12):
+        if fuel <= 0 or not isinstance(schema, dict): return
+        if "$ref" in schema:
+            try: walk(gen.resolve_ref(doc, schema["$ref"]), v, True, fuel - 1)
+            except Exception: pass
+            return
+        for x in schema.get("allOf", []) if isinstance(schema.get("allOf"), list) else []: walk(x, v, via, fuel - 1)
+        t = schema.get("type"); ts = t if isinstance(t, list) else [t]
+        if "integer" in ts and isinstance(v, int) and not isinstance(v, bool):
+            lo, hi = gen.int_bounds(schema)
+            out_schema = (lo is not None and v < lo) or (hi is not None and v > hi)
+            fmt = schema.get("format")
+            flo, fhi = gen.INT_FORMATS.get(fmt, (-2**63, 2**64 - 1))
+            if out_schema and flo <= v <= fhi and via: found.append((schema, v))
+        if isinstance(v, list) and isinstance(schema.get("items"), dict):
+            for x in v: walk(schema["items"], x, True, fuel - 1)
+        if isinstance(v, list) and isinstance(schema.get("items"), list):
+            for sc, x in zip(schema["items"], v): walk(sc, x, True, fuel - 1)
+        if isinstance(v, dict):
+            for k, x in v.items():
+                if k in (schema.get("properties") or {}): walk(schema["properties"][k], x, True, fuel - 1)
+                elif isinstance(schema.get("additionalProperties"), dict): walk(schema["additionalProperties"], x, True, fuel - 1)
+    walk(body, dv, False)
+    return bool(found)
+
 def attribute(f):
     """known finding an oracle failure belongs to (by predicate on the model's view of the failing site), or None"""
     dump = f.get("dump"); sites = f.get("site") or []
@@ -630,7 +675,9 @@ def attribute(f):
     if cl.startswith("d:"):
         if f.get("ignored_position"): return "C06-default-ignored"
         if dump and any(has_native(dump, t) for t, d in sites): return "C06-native-default"
+        if _int_bound_through_ref(f): return "C06-ref-int-bounds"
         return None
+    if cl.startswith("o4") and _int_bound_through_ref(f): return "C06-ref-int-bounds"
     if dump and any(omits_defaulted_member(dump, t, d) for t, d in sites) and (cl.startswith("o1: realised") or cl.startswith("o2") or cl.startswith("o3") or cl.startswith("o4")):
         return "C06-nested-default"
     if dump and any(has_native(dump, t) for t, d in sites) and (cl.startswith("o1: object without") or cl.startswith("o1: the schema default") or cl.startswith("o2") or cl.startswith("o3")):
